@@ -87,78 +87,7 @@ func c02Consumption(c *Ctx, p *Prog, pi *parserInfo) {
 			}():
 				c.OK("C02-R9", key, pos, "Next(scan index + 1): the whole matched sequence")
 				continue
-			case func() bool { // base + k, where input[base+k-1] is the last byte looked at on the way here
-				vb, k := linBase(n)
-				if vb == nil || k < 1 {
-					return false
-				}
-				if call, isCall := vb.(*ssa.Call); isCall {
-					if bi, isB := call.Call.Value.(*ssa.Builtin); isB && bi.Name() == "len" {
-						return false // prefix idioms below
-					}
-				}
-				// smallest value the base can have: a phi of constants, else zero if provably non-negative
-				lb := int64(0)
-				if phi, isPhi := vb.(*ssa.Phi); isPhi {
-					lb = 1 << 40
-					for _, e := range phi.Edges {
-						c, isC := constInt(e)
-						if !isC {
-							lb = -1
-							break
-						}
-						if c < lb {
-							lb = c
-						}
-					}
-				} else if okN, _ := nonNegative(vb, sites[0], 0); !okN {
-					lb = -1
-				}
-				if lb < 0 {
-					return false
-				}
-				last, bad := false, false
-				eachInstr(fn, func(in ssa.Instruction) {
-					ia, isIA := in.(*ssa.IndexAddr)
-					if !isIA || !in.Block().Dominates(b) {
-						return
-					}
-					ib, off := linBase(ia.Index)
-					if ia.X != input {
-						// an index into a reslice input[L:] is L further on
-						sl, isSl := ia.X.(*ssa.Slice)
-						if !isSl || sl.X != input || sl.Low == nil {
-							return
-						}
-						lb2, loff := linBase(sl.Low)
-						switch {
-						case ib == nil:
-							ib, off = lb2, off+loff
-						case lb2 == nil:
-							off += loff
-						default:
-							bad = true
-							return
-						}
-					}
-					switch {
-					case ib == nil: // constant index
-						if off > lb+k-1 {
-							bad = true
-						}
-					case ib == vb || sameValue(ib, vb):
-						if off > k-1 {
-							bad = true
-						}
-						if off == k-1 {
-							last = true
-						}
-					default:
-						bad = true
-					}
-				})
-				return last && !bad
-			}():
+			case examinedUpTo(fn, input, b, n, sites[0]):
 				c.OK("C02-R9", key, pos, "Next(base+k) where input[base+k-1] is the last byte examined: the matched sequence")
 				continue
 			case func() bool { // len(P)+k under HasPrefix(input, P), the k bytes after the prefix having been looked at
@@ -656,6 +585,10 @@ func classifyConsumeLoop(h *ssa.BasicBlock, body map[*ssa.BasicBlock]bool, input
 					// for n := len(P); n > 0; n-- under HasPrefix(input, P)
 					if pfx := lenArg(init); pfx != nil && underHasPrefix(pfx) {
 						return "prefix", "counts len(P) down to zero under HasPrefix(input, P)"
+					}
+					// for n := base+k; n > 0; n-- where input[base+k-1] is the last byte looked at
+					if len(h.Instrs) > 0 && examinedUpTo(h.Parent(), input, h, init, h.Instrs[0]) {
+						return "countdown", "counts down from base+k, input[base+k-1] being the last byte examined: the matched sequence"
 					}
 					return "", "countdown `> 0` from " + valName(init)
 				}
@@ -1461,4 +1394,80 @@ func isRangeIndexValue(v ssa.Value, input ssa.Value) bool {
 		return isRangeIndexOver(v, input)
 	}
 	return false
+}
+
+// examinedUpTo: n = base + k (base a value that cannot be negative, or a phi of constants) and
+// input[base+k-1] is the last byte of the input looked at on the way to block b: the count is the length
+// of the matched sequence.
+func examinedUpTo(fn *ssa.Function, input ssa.Value, b *ssa.BasicBlock, n ssa.Value, at ssa.Instruction) bool {
+	vb, k := linBase(n)
+	if vb == nil || k < 1 {
+		return false
+	}
+	if call, isCall := vb.(*ssa.Call); isCall {
+		if bi, isB := call.Call.Value.(*ssa.Builtin); isB && bi.Name() == "len" {
+			return false // prefix idioms below
+		}
+	}
+	// smallest value the base can have: a phi of constants, else zero if provably non-negative
+	lb := int64(0)
+	if phi, isPhi := vb.(*ssa.Phi); isPhi {
+		lb = 1 << 40
+		for _, e := range phi.Edges {
+			c, isC := constInt(e)
+			if !isC {
+				lb = -1
+				break
+			}
+			if c < lb {
+				lb = c
+			}
+		}
+	} else if okN, _ := nonNegative(vb, at, 0); !okN {
+		lb = -1
+	}
+	if lb < 0 {
+		return false
+	}
+	last, bad := false, false
+	eachInstr(fn, func(in ssa.Instruction) {
+		ia, isIA := in.(*ssa.IndexAddr)
+		if !isIA || !in.Block().Dominates(b) {
+			return
+		}
+		ib, off := linBase(ia.Index)
+		if ia.X != input {
+			// an index into a reslice input[L:] is L further on
+			sl, isSl := ia.X.(*ssa.Slice)
+			if !isSl || sl.X != input || sl.Low == nil {
+				return
+			}
+			lb2, loff := linBase(sl.Low)
+			switch {
+			case ib == nil:
+				ib, off = lb2, off+loff
+			case lb2 == nil:
+				off += loff
+			default:
+				bad = true
+				return
+			}
+		}
+		switch {
+		case ib == nil: // constant index
+			if off > lb+k-1 {
+				bad = true
+			}
+		case ib == vb || sameValue(ib, vb):
+			if off > k-1 {
+				bad = true
+			}
+			if off == k-1 {
+				last = true
+			}
+		default:
+			bad = true
+		}
+	})
+	return last && !bad
 }
